@@ -452,6 +452,16 @@ pub struct StubLog {
     /// (x bits, y bits) received by callback k of this operation (first 1024 callbacks)
     #[serde(default)]
     pub seen: Vec<(u64, u64)>,
+    /// callbacks that arrived on the client's own thread (their sequence is reproducible)
+    #[serde(default)]
+    pub own_calls: u32,
+    /// callbacks that arrived on worker threads of the library and were attributed to this
+    /// operation (engine A: the operation of the one client thread that was running)
+    #[serde(default)]
+    pub foreign_attributed: u32,
+    /// bit i set = query element i (first 64) was served by such a callback
+    #[serde(default)]
+    pub received_foreign: u64,
     /// the planned element-operation fault actually fired
     #[serde(default)]
     pub elem_fault_fired: bool,
@@ -490,11 +500,14 @@ impl Outcome {
     }
     /// what C17 compares: the answer the caller sees (not how often the strategy was called)
     pub fn same_answer(&self, o: &Outcome) -> bool {
+        // A call that did not return Ok has no value: what it left in the caller's buffer is not
+        // "the value returned for a query" (and may legitimately vary, e.g. when a library evaluates
+        // a batch on several worker threads and one element fails). Class and text must agree.
+        let value_matters = self.class == Class::Ok;
         self.class == o.class
             && self.text == o.text
             && self.shape == o.shape
-            && self.bits == o.bits
-            && self.backing == o.backing
+            && (!value_matters || (self.bits == o.bits && self.backing == o.backing))
             && self.stub.violations == o.stub.violations
             && self.stub.nested.len() == o.stub.nested.len()
             && self.stub.nested.iter().zip(o.stub.nested.iter()).all(|(a, b)| a.at == b.at && a.out.same_answer(&b.out))
@@ -507,12 +520,14 @@ impl Outcome {
         for &s in &self.shape {
             h.u64(s as u64);
         }
-        for &b in &self.bits {
-            h.u64(b);
-        }
-        h.u64(self.backing.len() as u64);
-        for &b in &self.backing {
-            h.u64(b);
+        if self.class == Class::Ok {
+            for &b in &self.bits {
+                h.u64(b);
+            }
+            h.u64(self.backing.len() as u64);
+            for &b in &self.backing {
+                h.u64(b);
+            }
         }
         for v in &self.stub.violations {
             h.str(v);
